@@ -201,20 +201,38 @@ func ruleB2(c *Ctx) {
 				continue
 			}
 			bad := ""
-			eachInstr(fn, func(in ssa.Instruction) {
-				switch x := in.(type) {
-				case ssa.CallInstruction:
-					if cal := x.Common().StaticCallee(); cal != nil && cal.Signature.Recv() != nil {
-						if pp, n := namedOf(cal.Signature.Recv().Type()); pp == "time" && n == "Time" && zoneDependent[cal.Name()] {
-							bad = "calls time.Time." + cal.Name()
+			// the method and the lib/time functions it reaches by static calls (Hash via String ...)
+			reach := []*ssa.Function{fn}
+			seenFn := map[*ssa.Function]bool{fn: true}
+			for i := 0; i < len(reach); i++ {
+				g := reach[i]
+				via := ""
+				if g != fn {
+					via = " (through " + fnName(g) + ")"
+				}
+				eachInstr(g, func(in ssa.Instruction) {
+					switch x := in.(type) {
+					case ssa.CallInstruction:
+						cal := x.Common().StaticCallee()
+						if cal == nil {
+							return
+						}
+						if cal.Signature.Recv() != nil {
+							if pp, n := namedOf(cal.Signature.Recv().Type()); pp == "time" && n == "Time" && zoneDependent[cal.Name()] {
+								bad = "calls time.Time." + cal.Name() + via
+							}
+						}
+						if fnPkgPath(cal) == modPath+"/lib/time" && cal.Blocks != nil && !seenFn[cal] {
+							seenFn[cal] = true
+							reach = append(reach, cal)
+						}
+					case *ssa.BinOp:
+						if (x.Op == token.EQL || x.Op == token.NEQ) && isStructTime(x.X.Type()) {
+							bad = "compares time.Time structs with == (wall clock and location included)" + via
 						}
 					}
-				case *ssa.BinOp:
-					if (x.Op == token.EQL || x.Op == token.NEQ) && isStructTime(x.X.Type()) {
-						bad = "compares time.Time structs with == (wall clock and location included)"
-					}
-				}
-			})
+				})
+			}
 			if bad == "" {
 				c.ok(key, c.P.Pos(fn.Pos()), "uses instant-based accessors only")
 			} else {
